@@ -298,7 +298,7 @@ def run(ctx):
         rc, so, se = sh([exe_race if race else exe, "conc", "-strat", s, "-wt=%s" % ("true" if wt else "false"),
                          "-seed", str(seed), "-runs", str(runs_per), "-out", out,
                          "-updaters", "3", "-selectors", "4", "-ops", "10", "-sels", "30", "-burst", "24"],
-                        env=env, timeout=ctx.pick(150, 900), check=False)
+                        env=env, timeout=ctx.pick(900, 1800), check=False)
         if rc != 0:
             raise Inconclusive("concurrent driver failed (%s wt=%s race=%s): rc=%d %s" % (s, wt, race, rc, se[-2000:]))
         return (s, wt, race), out
